@@ -174,7 +174,8 @@ REGISTRY = {
         'theorems': ['PP.C06.fits_iff_spec', 'PP.C06.broken_only_if', 'PP.C06.flat_only_if', 'PP.fitsE_iff_scan'],
         'modules': ENGINE_MODULES + ['PP.Proofs.FitsE', 'PP.Proofs.Scan', 'PP.Props.C06'],
         'sections': [{'name': 'engine-classic', 'run': engine_section(classic=True)},
-                     {'name': 'one-line-stable-oracle', 'run': oracle_sec('C06')}],
+                     {'name': 'one-line-stable-oracle', 'run': oracle_sec('C06')},
+                     {'name': 'values-one-line', 'run': values_sec('oneline_section')}],
         'replay': engine_replay,
         'rule': 'classic-algebra engine correspondence + the one-line-stability oracle evaluated on the implementation',
         'assumptions': ['the smart strategy\'s extra reason (a following deeper line overflowing) is stated but not characterised denotationally'],
@@ -206,7 +207,8 @@ REGISTRY = {
                      {'name': 'tokens', 'run': values_sec('tokens_section')},
                      {'name': 'comments', 'run': values_sec('comments_section', mode='c03')},
                      {'name': 'subclasses', 'run': values_sec('subclasses_section')},
-                     {'name': 'calls', 'run': values_sec('calls_section')}],
+                     {'name': 'calls', 'run': values_sec('calls_section')},
+                     {'name': 'stdlib', 'run': simple_sec('sec_stdlib', 'stdlib_section_c03')}],
         'trusted': VALUE_TRUSTED,
         'rule': 'same syntax tree (ast.dump) across all layout settings of each value; every line indented by a multiple of indent',
     },
@@ -223,6 +225,7 @@ REGISTRY = {
         'modules': VALUE_MODULES + ['PP.Props.Values', 'PP.Spec.Tokens', 'PP.Proofs.Toks', 'PP.Proofs.ToksStr', 'PP.Proofs.ToksComb', 'PP.Proofs.ToksVal',
                                     'PP.Proofs.Shown', 'PP.Proofs.Comments', 'PP.Props.C03', 'PP.Props.C09b'],
         'sections': [{'name': 'comments', 'run': values_sec('comments_section')},
+                     {'name': 'fresh-interpreter', 'run': values_sec('fresh_comment_section')},
                      {'name': 'tokens', 'run': values_sec('tokens_section')}],
         'trusted': VALUE_TRUSTED,
         'rule': 'comment / trailing_comment placements, adversarial texts; eval == uncommented value, same ast, words preserved',
